@@ -20,7 +20,7 @@ from mc import common, wsgi
 
 ID = 'C18'
 LEVEL = 'model_checking'
-BUDGET = {'quick': 300, 'thorough': 2400}
+BUDGET = {'quick': 600, 'thorough': 2400}
 RULE = ('host configurations enumerated as a product (all resource-name subsets of size <=2 x all value-kind assignments, '
         'size-3 subsets with rotated kinds) x middleware set x mount x view; fault layer: each peripheral x phase x '
         'exception type; one evaluation = one meta page; non-trivial = host with at least one secret-named resource or an '
